@@ -747,7 +747,7 @@ class electrical_signal():
         if not isinstance(other, self.type()):
             other = self.__class__(other) # only signal is considered
         
-        if self.len() != other.len() and other.len() != 1:
+        if self.len() != other.len() and other.len() != 1 and self.len() != 1:
             raise ValueError(f"Can't add {self.__class__.__name__}'s with shapes {self.signal.shape} and {other.signal.shape}")
         
         dtype = np.result_type(self.signal, other.signal)
@@ -755,9 +755,9 @@ class electrical_signal():
         if self.noise is None and other.noise is None:
             return self.__class__(self.signal + other.signal, dtype=dtype)
         elif self.noise is None:
-            return self.__class__(self.signal + other.signal, np.broadcast_to(other.noise, np.shape(self.signal)), dtype=dtype)
+            return self.__class__(self.signal + other.signal, np.broadcast_to(other.noise, np.shape(self.signal + other.signal)), dtype=dtype)
         elif other.noise is None:
-            return self.__class__(self.signal + other.signal, self.noise, dtype=dtype)
+            return self.__class__(self.signal + other.signal, np.broadcast_to(self.noise, np.shape(self.signal + other.signal)), dtype=dtype)
         return self.__class__(self.signal + other.signal, self.noise + other.noise, dtype=dtype)
         
     def __radd__(self, other):
@@ -779,7 +779,7 @@ class electrical_signal():
         if not isinstance(other, self.__class__):
             other = self.__class__(other) # only signal is considered
         
-        if self.len() != other.len() and other.len() != 1:
+        if self.len() != other.len() and other.len() != 1 and self.len() != 1:
             raise ValueError(f"Can't substract {self.__class__.__name__}'s with shapes {self.signal.shape} and {other.signal.shape}")
         
         dtype = np.result_type(self.signal, other.signal)
@@ -787,16 +787,16 @@ class electrical_signal():
         if self.noise is None and other.noise is None:
             return self.__class__(self.signal - other.signal, dtype=dtype)
         elif self.noise is None:
-            return self.__class__(self.signal - other.signal, np.broadcast_to(-other.noise, np.shape(self.signal)), dtype=dtype)
+            return self.__class__(self.signal - other.signal, np.broadcast_to(-other.noise, np.shape(self.signal - other.signal)), dtype=dtype)
         elif other.noise is None:
-            return self.__class__(self.signal - other.signal, self.noise, dtype=dtype)
+            return self.__class__(self.signal - other.signal, np.broadcast_to(self.noise, np.shape(self.signal - other.signal)), dtype=dtype)
         return self.__class__(self.signal - other.signal, self.noise - other.noise, dtype=dtype)
         
     def __rsub__(self, other):
         if not isinstance(other, self.__class__):
             other = self.__class__(other) # only signal is considered
         
-        if self.len() != other.len() and other.len() != 1:
+        if self.len() != other.len() and other.len() != 1 and self.len() != 1:
             raise ValueError(f"Can't substract {self.__class__.__name__}'s with shapes {self.signal.shape} and {other.signal.shape}")
         
         dtype = np.result_type(self.signal, other.signal)
@@ -804,9 +804,9 @@ class electrical_signal():
         if self.noise is None and other.noise is None:
             return self.__class__(-self.signal + other.signal, dtype=dtype)
         elif self.noise is None:
-            return self.__class__(-self.signal + other.signal, np.broadcast_to(other.noise, np.shape(self.signal)), dtype=dtype)
+            return self.__class__(-self.signal + other.signal, np.broadcast_to(other.noise, np.shape(-self.signal + other.signal)), dtype=dtype)
         elif other.noise is None:
-            return self.__class__(-self.signal + other.signal, -self.noise, dtype=dtype)
+            return self.__class__(-self.signal + other.signal, np.broadcast_to(-self.noise, np.shape(-self.signal + other.signal)), dtype=dtype)
         return self.__class__(-self.signal + other.signal, -self.noise + other.noise, dtype=dtype)
         
     def __mul__(self, other):
@@ -825,7 +825,7 @@ class electrical_signal():
         if not isinstance(other, self.__class__):
             other = self.__class__(other) # only signal is considered
         
-        if self.len() != other.len() and other.len() != 1:
+        if self.len() != other.len() and other.len() != 1 and self.len() != 1:
             raise ValueError(f"Can't add {self.__class__.__name__}'s with shapes {self.signal.shape} and {other.signal.shape}")
         
         dtype = np.result_type(self.signal, other.signal)
@@ -833,9 +833,9 @@ class electrical_signal():
         if self.noise is None and other.noise is None:
             return self.__class__(self.signal * other.signal, dtype=dtype)
         elif self.noise is None:
-            return self.__class__(self.signal * other.signal, np.broadcast_to(other.noise, np.shape(self.signal)), dtype=dtype)
+            return self.__class__(self.signal * other.signal, np.broadcast_to(other.noise, np.shape(self.signal * other.signal)), dtype=dtype)
         elif other.noise is None:
-            return self.__class__(self.signal * other.signal, self.noise, dtype=dtype)
+            return self.__class__(self.signal * other.signal, np.broadcast_to(self.noise, np.shape(self.signal * other.signal)), dtype=dtype)
         return self.__class__(self.signal * other.signal, self.noise * other.noise, dtype=dtype)
         
     def __rmul__(self, other):
